@@ -202,7 +202,8 @@ def check_props(props_rel):
 
 
 def _coq_file(pid, name, text):
-    d = os.path.join(BUILD, pid)
+    # one scratch directory per process: concurrent runs of the same check must not clobber each other's cases files
+    d = os.path.join(BUILD, pid, 'run_%d' % os.getpid())
     os.makedirs(d, exist_ok=True)
     p = os.path.join(d, name)
     with open(p, 'w') as f:
@@ -563,6 +564,8 @@ def main(prop, argv=None):
     cov.update(getattr(prop, 'stats', {}) or {})
     write_evidence(prop, tier, seed, cov, time.time() - t0, len(new) + (1 if broken and not new else 0),
                    list(prop.assumptions))
+    import shutil
+    shutil.rmtree(os.path.join(BUILD, pid, 'run_%d' % os.getpid()), ignore_errors=True)
     log('%s %s: theorems=%d/%d cases=%d compared=%d disagreements=%d violations=%d known=%d wall=%.1fs' % (
         pid, tier, discharged, obligations, len(results), ncmp, len(bad), len(new), len(known_hits), time.time() - t0))
     return rc
